@@ -25,7 +25,7 @@ from mindsdb_sql.parser.dialects.mindsdb.lexer import MindsDBLexer
 from mindsdb_sql.parser.dialects.mindsdb.retrain_predictor import RetrainPredictor
 from mindsdb_sql.parser.dialects.mindsdb.finetune_predictor import FinetunePredictor
 from mindsdb_sql.parser.logger import ParserLogger
-from mindsdb_sql.parser.utils import ensure_select_keyword_order, JoinType, tokens_to_string, unquote_string_token
+from mindsdb_sql.parser.utils import ensure_select_keyword_order, JoinType, tokens_to_string, unquote_string_token, binary_operation
 
 def param_to_identifier(name, value):
     # value of a USING parameter that names an object: `param = name` or `param = 'name'`
@@ -1615,7 +1615,7 @@ class MindsDBParser(Parser):
             arg1 = Last()
         else:
             arg1 = p[2]
-        return BinaryOperation(op=p[1], args=(p[0], arg1))
+        return binary_operation(p[1], p[0], arg1)
 
     @_('MINUS expr %prec UMINUS',
        'NOT expr %prec UNOT', )
